@@ -53,6 +53,8 @@ MUST_HIT = [
 ]
 
 LEAF_POOL = ["id", "ver", "num", "name", "type", "raw", "val", "dtc"]
+REQ_POOL = [[0x22, 0xF1, 0x00], [0x22, 0xF1, 0x01], [0x1A, 0xF1, 0x00], [0x22, 0xF1], [0x1A, 0x90],
+            [0x22, 0xF2, 0x00], [0x09, 0xF1, 0x00], [0x22, 0xF1, 0x00, 0x00], [0x1A, 0xF1, 0x01], [0x09, 0x90]]
 
 
 # ---------------------------------------------------------------------------
@@ -420,8 +422,12 @@ def _strategies():
         common = {"services": [], "gneg": []}
         n_svc = draw(st.integers(1, 3))
         sids = {}
+        # distinct requests that share prefixes, suffixes and differ in single bytes
+        req_idx = draw(st.lists(st.integers(0, len(REQ_POOL) - 1), unique=True, min_size=n_svc, max_size=n_svc))
+        used_req = set(req_idx)
         for k in range(n_svc):
-            sid = draw(st.sampled_from([0x22, 0x22, 0x1A, 0x09]))
+            req_k = REQ_POOL[req_idx[k]]
+            sid = req_k[0]
             sids[k] = sid
             npos = draw(st.sampled_from([1, 1, 2]))
             pos = []
@@ -435,7 +441,7 @@ def _strategies():
                 layouts[key] = [_const("sid", 0x7F), _const("rs", sid),
                                 _leaf(draw(st.sampled_from(["nrc", "nrc", "id", "ver"])))]
                 neg.append(key)
-            common["services"].append({"sn": f"S{k}", "req": [sid, 0xF1, k], "pos": pos, "neg": neg})
+            common["services"].append({"sn": f"S{k}", "req": list(req_k), "pos": pos, "neg": neg})
         if draw(st.integers(0, 2)) == 0:
             layouts["g"] = [_const("sid", 0x7F), _leaf("rsid"), _leaf(draw(st.sampled_from(["gnrc", "nrc"])))]
             common["gneg"] = ["g"]
@@ -446,15 +452,18 @@ def _strategies():
         # overriding services (same short name, other request), one definition per common service
         overrides = {}
         for k in range(n_svc):
-            if draw(st.integers(0, 2)) == 0:
+            free = [i for i, r in enumerate(REQ_POOL) if r[0] == sids[k] and i not in used_req]
+            if free and draw(st.integers(0, 2)) == 0:
                 base = common["services"][k]
+                oi = draw(st.sampled_from(free))
+                used_req.add(oi)
                 if draw(st.booleans()):
                     pos, neg = list(base["pos"]), list(base["neg"])
                 else:
                     key = f"O{k}p0"
                     layouts[key] = draw(pos_layout(sids[k], None))
                     pos, neg = [key], []
-                overrides[k] = {"sn": f"S{k}", "req": [sids[k], 0xF2, k], "pos": pos, "neg": neg}
+                overrides[k] = {"sn": f"S{k}", "req": list(REQ_POOL[oi]), "pos": pos, "neg": neg}
         cfg = {"kind": kind, "layouts": layouts, "common": common, "variants": []}
         n_var = draw(st.sampled_from([2, 3, 4, 1, 2, 3, 4, 3, 4, 0, 3, 4]))
         for i in range(n_var):
